@@ -308,6 +308,9 @@ theorem linkInv_closed : Closed LinkInv where
   scopes := fun s u f sc hi hf => hi.of_lk (lk_setFlow s u f { f with scopes := sc } hf rfl)
   stopActions := fun _ _ _ hi h => hi.of_flows_eq (stopActions_frame _ _ _ h).1
 
+theorem linkInv_busy : ClosedBusy LinkInv :=
+  ⟨fun _ _ hi => hi.of_flows_eq rfl, fun _ _ hi => hi.of_flows_eq rfl⟩
+
 theorem abortFlow_linked (n : Nat) (s : State) (u : Nat) (d : Bool) (s' : State) (hi : LinkInv s)
     (h : abortFlow n s u d = .ok s') : LinkInv s' := abortFlow_closed linkInv_closed n s u d s' hi h
 
